@@ -210,9 +210,12 @@ func (sys *system) write(stream, shape int) (string, error) {
 		}
 		return "we", nil
 	case err != nil:
-		// refused by an interceptor itself: nothing is promised except no duplication
-		if appPkts > 1 {
-			return "", fail("C01:duplicated", "packet %d reached the transport %d times", q, appPkts)
+		// The application's packets are well formed, carry the negotiated extension and have payloads of
+		// 0..1460 bytes: every one of them must reach the next writer exactly once. An error that stems from a
+		// packet the chain injected itself (a FEC packet refused further down) may be reported, but the
+		// application's packet must still have been delivered.
+		if appPkts != 1 {
+			return "", fail("C01:application-packet-refused", "Write of a well-formed packet %d (shape %d, %d payload bytes) on stream %d returned %q although the transport did not fail; it reached the transport %d times", q, shape, len(pc), stream, err, appPkts)
 		}
 		return "wr", nil
 	case appPkts != 1:
